@@ -543,6 +543,8 @@ impl ImageWithRegion {
             if let Some(out) = out {
                 *g = ImageBuffer::F32(out);
             }
+            // Regions are kept in fully upsampled coordinates.
+            *region = region.upsample(target_factor);
             *shift = ChannelShift::from_shift(target_factor);
         }
 
